@@ -25,7 +25,7 @@ ASSUMPTIONS = [
 TEMPLATES = cases.TEMPLATES_1D + cases.TEMPLATES_2D + cases.TEMPLATES_3D + ["nub"]
 MEASURE_SETS = [(), ("mean",), ("sum",), ("stddev", "mean"), ("median",),
                 ("valid_counts", "mean"), ("valid_counts", "sum", "stddev")]
-WEIGHTS = ["none", "frac", "zeros", "unit8"]
+WEIGHTS = ["none", "frac", "zeros", "unit8", "scales", "tiny"]
 REQUIRED_REACH = [
     "counts", "unweighted_counts", "numeric", "cube_level", "strand", "nub",
     "matrix._BaseCubeCounts:_CatXCatCubeCounts", "matrix._BaseCubeCounts:_CatXMrCubeCounts",
